@@ -44,10 +44,14 @@ CLAIMED = {
              "property oracle on edit histories with random holds (text node without its element, appended node without "
              "predecessors, root without document, document without root) under forced / in-call (threshold 1) / no "
              "collections: content == plain-tree mirror up to coalescing of unreferenced text, held objects are what "
-             "navigation returns, cache empty after release, no exception escapes the callback.",
+             "navigation returns, cache empty after release, no exception escapes the callback. Three further streams place "
+             "collections where thresholds rarely do: every applicable single editing call on small mixed-content documents "
+             "under allocation threshold 1; a held text node that is emptied, collected around and used again; and index "
+             "arguments that are int subclasses firing gc.collect() at the k-th arithmetic/comparison inside the call (both "
+             "readings of an index - before/after coalescing - are accepted).",
         note=TB + "Partial: when CPython collects and which temporaries library frames hold is runtime behaviour - explored "
              "(forced, threshold 1), not modelled. Fixed findings: head-text-node-only (3993e00), "
-             "detach-retain-reordered-by-collection (cf2d205).",
+             "detach-retain-reordered-by-collection (cf2d205), index-lookups-across-a-collection (141256e).",
         technique="Lean 4 theorems over a reference-count model of the cache callback + differential correspondence on real cache snapshots + timing exploration",
         design="3/C04",
     ),
